@@ -26,8 +26,8 @@ RULE = ("case = (method, constraint-kind assignment, mask/options variant); non-
 ASSUMPTIONS = ["test points closer than 1e-7 to a constraint boundary are skipped", "a problem without any finite variable bound may be passed with bounds=None"]
 EXHAUSTIVE = {"quick": True, "thorough": True}
 BOUNDS = {"quick": {"max_nonlinear": 2, "max_linear": 2}, "thorough": {"max_nonlinear": 3, "max_linear": 3}}
-REQUIRED = {"quick": {"captured_problems": 1861, "points_compared": 38084, "jacobians_checked": 3000, "max_iterations_checked": 1000, "rejected_combinations": 2000, "masked_problems": 800, "options_not_dict_checked": 500, "__nontrivial__": 1861},
-            "thorough": {"captured_problems": 47338, "points_compared": 1193908, "jacobians_checked": 100000, "max_iterations_checked": 30000, "rejected_combinations": 100000, "masked_problems": 30000, "options_not_dict_checked": 15000, "__nontrivial__": 45000}}
+REQUIRED = {"quick": {"captured_problems": 1861, "points_compared": 38084, "jacobians_checked": 3000, "max_iterations_checked": 1000, "rejected_combinations": 2000, "masked_problems": 800, "options_not_dict_checked": 500, "option_plumbing_cases": 80, "__nontrivial__": 1861},
+            "thorough": {"captured_problems": 47338, "points_compared": 1193908, "jacobians_checked": 100000, "max_iterations_checked": 30000, "rejected_combinations": 100000, "masked_problems": 30000, "options_not_dict_checked": 15000, "option_plumbing_cases": 800, "__nontrivial__": 45000}}
 METHODS = ["slsqp", "cobyla", "l-bfgs-b", "tnc", "nelder-mead", "powell", "bfgs", "cg", "newton-cg", "differential_evolution", "scipy/default"]
 KINDS = ["eq", "lower", "upper", "two", "free"]
 V = 3
@@ -40,6 +40,10 @@ def cases(tier, seed):
             for nl in range(ml + 1):
                 for kinds in itertools.product(KINDS, repeat=nn + nl):
                     yield {"method": method, "nn": nn, "nl": nl, "kinds": list(kinds)}
+    # the option plumbing of every method, under every spelling of its name, with every form of the options setting
+    for method in METHODS:
+        for rep in range(12 if tier == "quick" else 120):
+            yield {"method": method, "nn": 0, "nl": 0, "kinds": [], "rep": rep}
 
 
 def _bound(kind, rng):
@@ -56,7 +60,7 @@ def run_case(case, obs):
     from ropt.ensemble_evaluator import EnsembleEvaluator  # noqa: PLC0415
     from ropt.optimization import EnsembleOptimizer  # noqa: PLC0415
 
-    rng = rng_for(obs.seed, "c08", case["method"], case["nn"], case["nl"], case["kinds"])
+    rng = rng_for(obs.seed, "c08", case["method"], case["nn"], case["nl"], case["kinds"], case.get("rep"))
     method, nn, nl = case["method"], case["nn"], case["nl"]
     variant = int(rng.integers(0, 6))
     use_mask = variant in (1, 3, 5) or rng.random() < 0.3
@@ -97,6 +101,12 @@ def run_case(case, obs):
     maxit = int(rng.integers(3, 60)) if rng.random() < 0.7 else None
     tolv = float(rng.choice([1e-4, 1e-7])) if rng.random() < 0.5 else None
     opt = {"method": method}
+    if case.get("rep") is not None:
+        maxit = int(rng.integers(3, 60))
+        optform = ["none", "empty", "dict", "dict2"][case["rep"] % 4]
+        base = method.split("/")[-1]
+        opt = {"method": [method, method.upper(), method.title(), "scipy/" + base, "SciPy/" + base.upper()][case["rep"] % 5]}
+        obs.count("option_plumbing_cases")
     if optform == "empty":
         opt["options"] = {}
     elif optform == "dict":
